@@ -197,6 +197,18 @@ class NPShim(types.ModuleType):
             return res
         return g
 
+    def exp(self, x, *a, **k):
+        r = np.exp(x, *a, **k)
+        if isinstance(x, (float, int, np.floating, np.integer)):
+            P.note_exp_point(x, r)
+        return r
+
+    def log(self, x, *a, **k):
+        r = np.log(x, *a, **k)
+        if isinstance(x, (float, int, np.floating, np.integer)) and x > 0:
+            P.note_exp_point(r, x)
+        return r
+
     def real(self, x):
         return A._map1(P.real_of, x) if (has_sym(x) or isinstance(x, SymArray)) else np.real(x)
 
@@ -392,10 +404,63 @@ class NPFFTShim(FFTShim):
         super().__init__(np.fft)
 
 
+class _Interp1d:
+    """scipy.interpolate.interp1d, kind='linear' (If-chain on symbolic queries)."""
+
+    def __init__(self, x, y, kind='linear', axis=-1, copy=True, bounds_error=None,
+                 fill_value=float('nan'), assume_sorted=False):
+        import scipy.interpolate
+        self._real = scipy.interpolate.interp1d(x, y, kind=kind, axis=axis, copy=copy,
+                                                bounds_error=bounds_error,
+                                                fill_value=fill_value,
+                                                assume_sorted=assume_sorted)
+        if kind != 'linear':
+            raise SymError("interp1d kind %r" % kind)
+        xs = np.asarray(x, dtype=float)
+        ys = np.asarray(y, dtype=float)
+        if not assume_sorted:
+            o = np.argsort(xs)
+            xs, ys = xs[o], ys[o]
+        self.x, self.y = xs, ys
+        self.extrap = isinstance(fill_value, str) and fill_value == 'extrapolate'
+
+    def __call__(self, q):
+        if not (has_sym(q) or isinstance(q, SymArray)):
+            r = self._real(np.asarray(q, dtype=float) if isinstance(q, np.ndarray) else q)
+            if isinstance(r, np.ndarray) and r.ndim:
+                return r.astype(object).view(SymArray)
+            return r
+        if not self.extrap:
+            raise SymError("interp1d without extrapolation on symbolic input")
+        xs, ys = self.x, self.y
+        n = len(xs)
+
+        def one(v):
+            # segment j for xs[j] <= v < xs[j+1]; first/last segment extended outwards
+            def seg(j):
+                sl = (ys[j + 1] - ys[j]) / (xs[j + 1] - xs[j])
+                return P.add(float(ys[j]), P.mul(float(sl), P.sub(v, float(xs[j]))))
+            res = seg(n - 2)
+            for j in range(n - 3, -1, -1):
+                res = P.ite(P.cmp(v, float(xs[j + 1]), '<'), seg(j), res)
+            return res
+        r = A._map1(one, q)
+        return r
+
+
+class InterpolateShim:
+    interp1d = _Interp1d
+
+    def __getattr__(self, name):
+        import scipy.interpolate
+        return getattr(scipy.interpolate, name)
+
+
 class ScipyShim(types.ModuleType):
     def __init__(self):
         super().__init__('scipy')
         object.__setattr__(self, 'fft', FFTShim(scipy.fft))
+        object.__setattr__(self, 'interpolate', InterpolateShim())
         object.__setattr__(self, 'constants', scipy.constants)
         object.__setattr__(self, '_over', {})
 
